@@ -1896,6 +1896,14 @@ func (c *streamableServerConn) Write(ctx context.Context, msg jsonrpc.Message) e
 			s = c.streams[""] // standalone SSE stream
 		}
 	}
+	if s == nil && relatedRequest.IsValid() && !responseTo.IsValid() {
+		// A notification or request of the server relating to a request whose
+		// stream is gone (the client abandoned the exchange, and nothing is
+		// stored from which it could be resumed) - for example the cancellation
+		// of a nested request after the client gave up on the outer one. The
+		// standalone stream is the only way left to reach the client.
+		s = c.streams[""]
+	}
 	if responseTo.IsValid() {
 		// Once we've responded to a request, disallow related messages by removing
 		// the stream association. This also releases memory.
@@ -1917,6 +1925,18 @@ func (c *streamableServerConn) Write(ctx context.Context, msg jsonrpc.Message) e
 	}
 
 	s.mu.Lock()
+	if !responseTo.IsValid() && s.id != "" && s.done == nil && c.eventStore == nil {
+		// Likewise if the stream still exists but its exchange has ended and
+		// cannot be resumed.
+		s.mu.Unlock()
+		c.mu.Lock()
+		s = c.streams[""]
+		c.mu.Unlock()
+		if s == nil {
+			return fmt.Errorf("%w: write to closed stream", jsonrpc2.ErrRejected)
+		}
+		s.mu.Lock()
+	}
 	defer s.mu.Unlock()
 
 	// Store in eventStore before delivering.
